@@ -3,6 +3,8 @@
 package dtls
 
 import (
+	"reflect"
+	dtlsstate "github.com/pion/dtls/v3/internal/state"
 	"testing/synctest"
 	"encoding/hex"
 	"fmt"
@@ -88,6 +90,50 @@ func TestVerifC08ProbeCBC(t *testing.T) {
 		synctestWait()
 		fmt.Println("PROBE reads", len(lab.Client.reads()), lab.Client.readErr())
 	})
+}
+
+func c08ProbeHs(epoch uint16, rseq uint64, ht byte, mseq uint16, tlen, foff int, body []byte) []byte {
+	b := []byte{22, 0xfe, 0xfd, byte(epoch >> 8), byte(epoch), byte(rseq >> 40), byte(rseq >> 32), byte(rseq >> 24), byte(rseq >> 16), byte(rseq >> 8), byte(rseq)}
+	l := 12 + len(body)
+	b = append(b, byte(l>>8), byte(l))
+	b = append(b, ht, byte(tlen>>16), byte(tlen>>8), byte(tlen), byte(mseq>>8), byte(mseq), byte(foff>>16), byte(foff>>8), byte(foff), byte(len(body)>>16), byte(len(body)>>8), byte(len(body)))
+	return append(b, body...)
+}
+
+func TestVerifC08ProbeGrow(t *testing.T) {
+	for _, mode := range []string{"cache", "wedge"} {
+		vBubble(t, func(t *testing.T) {
+			ccfg, scfg := vPSKPair(TLS_PSK_WITH_AES_128_GCM_SHA256)
+			lab := newLab(t, ccfg, scfg)
+			defer lab.close()
+			lab.Pump.run(lab.bothDone, 200*time.Second)
+			if !lab.established() {
+				t.Fatalf("hs: %v %v", lab.Client.Err, lab.Server.Err)
+			}
+			lab.Client.startReader()
+			c := lab.Client.Conn
+			cur := dtlsstate.HandshakeRecvSequence(c.state)
+			cacheLen := func() int { return reflect.ValueOf(c.handshakeCache).Elem().FieldByName("cache").Len() }
+			fb := reflect.ValueOf(c.fragmentBuffer).Elem()
+			fmt.Println("PROBE", mode, "cur", cur, "cache", cacheLen(), "fbcount", fb.FieldByName("totalFragmentCount").Int())
+			before := lab.Net.count()
+			for i := 0; i < 1200; i++ {
+				var d []byte
+				if mode == "cache" {
+					d = c08ProbeHs(0, uint64(1000+i), 1, uint16(cur+i), 1000, 0, make([]byte, 1000))
+				} else {
+					d = c08ProbeHs(0, uint64(1000+i), 1, uint16(cur+1+i), 1000, 0, make([]byte, 10))
+				}
+				lab.Net.deliver("client", "server", d)
+				synctestWait()
+			}
+			fmt.Println("PROBE", mode, "after: cache", cacheLen(), "fbcount", fb.FieldByName("totalFragmentCount").Int(), "fbsize", fb.FieldByName("totalBufferSize").Int(), "emitted", lab.Net.count()-before, "recvseq", dtlsstate.HandshakeRecvSequence(c.state))
+			lab.Pump.next = lab.Net.count()
+			_, err := lab.Server.Conn.Write([]byte("fresh-genuine-payload"))
+			lab.Pump.run(func() bool { return len(lab.Client.reads()) > 0 }, 5*time.Second)
+			fmt.Println("PROBE", mode, "write err", err, "reads", len(lab.Client.reads()), "readErr", lab.Client.readErr())
+		})
+	}
 }
 
 func TestVerifC08Probe(t *testing.T) {
